@@ -73,10 +73,11 @@ def mkq(entry, n, w, ub, tier, sn=None, cht=0, scap=None, kh=None):
     if kh is not None:
         cfg['KH'] = kh
     big = max(n, sn or 0, scap or 0, 8)     # 8: the smallest object is one 8-byte word (filled byte by byte)
+    chsz = {0: 1, 1: 4, 2: 2}[cht]          # memset/memcpy of the inplace string run over bytes
     # loops: driver/model loops run NBITS (or SLEN) times; the kernel loops over characters/bits are bounded by the same numbers;
     # popcount intrinsics are modelled by a loop over the word width; memset/memcpy of the inplace string / of the object
     us = {'ll_ctpop_64.0': 66, 'll_ctpop_32.0': 34, 'll_ctpop_16.0': 18, 'll_ctpop_8.0': 10,
-          'll_memset.0': big + 40, 'll_memcpy.0': big + 40, 'll_memmove.0': big + 40, 'll_memmove.1': big + 40}
+          'll_memset.0': big * chsz + 40, 'll_memcpy.0': big * chsz + 40, 'll_memmove.0': big * chsz + 40, 'll_memmove.1': big * chsz + 40}
     # NB the character loop of the string constructors has a symbolic trip count (<= SLEN) and is therefore unrolled big + 3 times;
     # it cannot be given a tighter bound by name because its number inside k_new_* differs between the plain and the UB build
     return dict(entry='q_' + entry, cfg=cfg, unwind=big + 3, unwindset=us, solver=SOLVERS.get(entry, ['kissat', 'cadical']),
